@@ -11,6 +11,7 @@ import os
 import random
 import sys
 import warnings
+import numpy as np
 
 sys.path.insert(0, os.path.dirname(os.path.abspath(__file__)))
 import common as H
@@ -46,6 +47,20 @@ def observe(path, how):
                             vals.append((ch.path, sid, G.canon_array_values(d[sid])))
                     else:
                         vals.append((ch.path, None, G.canon_array_values(d)))
+                    # partial reads: a window that starts inside a chunk, integer indices, the chunk stream
+                    n = len(ch)
+                    if n >= 2 and not isinstance(d, dict):
+                        def part(fn):
+                            try:
+                                return ("ok", fn())
+                            except Exception as ex:    # noqa: BLE001
+                                return ("err", type(ex).__name__)
+                        vals.append((ch.path, "window(1,%d)" % (n - 1),
+                                     part(lambda: G.canon_array_values(ch.read_data(1, n - 1, scaled=False)))))
+                        vals.append((ch.path, "index", part(lambda: G.canon_array_values(
+                            np.array([ch[n - 1], ch[0], ch[n // 2]])))))
+                        vals.append((ch.path, "chunks", part(lambda: [
+                            (c.offset, G.canon_array_values(c[:])) for c in ch.data_chunks()])))
             return toks, vals
 
 
@@ -171,12 +186,29 @@ def check_file(run, rng, work, k, data, index, label, cases_meta, cases_idx, tru
     return failed
 
 
-def writer_file(rng):
-    """a file and its index produced by TdmsWriter itself"""
-    import numpy as np
-    from nptdms import TdmsWriter, ChannelObject, GroupObject, RootObject
+def writer_file(rng, work=None):
+    """a file and its index produced by TdmsWriter itself: one session on streams, or (with a work directory)
+    1-3 sessions on a path - mode 'w' then 'a' - with index_file=True"""
+    from nptdms import TdmsWriter
+    if work is not None and rng.random() < 0.5:
+        path = os.path.join(work, "writer_sessions.tdms")
+        for f in (path, path + "_index"):
+            if os.path.exists(f):
+                os.remove(f)
+        for si in range(rng.randint(1, 3)):
+            with TdmsWriter(path, mode="w" if si == 0 else "a", index_file=True) as w:
+                writer_calls(rng, w)
+        return open(path, "rb").read(), open(path + "_index", "rb").read()
     dbuf, ibuf = io.BytesIO(), io.BytesIO()
     with TdmsWriter(dbuf, index_file=ibuf) as w:
+        writer_calls(rng, w)
+    return dbuf.getvalue(), ibuf.getvalue()
+
+
+def writer_calls(rng, w):
+    import numpy as np
+    from nptdms import ChannelObject, GroupObject, RootObject
+    if True:
         for _ in range(rng.randint(1, 4)):
             objs = []
             if rng.random() < 0.5:
@@ -193,7 +225,6 @@ def writer_file(rng):
                         arr = np.array([rng.randint(0, 100) for _ in range(n)], dtype=kind)
                     objs.append(ChannelObject(g, c + kind, arr, {"u": 1.5}))
             w.write_segment(objs)
-    return dbuf.getvalue(), ibuf.getvalue()
 
 
 IMPORTS = R.READER_IMPORTS
@@ -215,7 +246,7 @@ def main():
     for k in range(n):
         r = rng.random()
         if r < 0.2:
-            data, index = writer_file(rng)
+            data, index = writer_file(rng, work)
             label = "writer_index"
             truncated = False
         else:
